@@ -794,7 +794,7 @@ class DiscreteFactor(BaseFactor, StateNameMixin):
             )
             phi1.values = phi1.values.swapaxes(axis, exchange_index)
 
-        phi.values = phi.values / phi1.values
+        phi.values = config.get_compute_backend().asarray(phi.values / phi1.values)
 
         # If factor division 0/0 = 0 but is undefined for x/0. In pgmpy we are using
         # np.inf to represent x/0 cases.
